@@ -24,15 +24,15 @@ Proof. exact check_C13_sound. Qed.
 Print Assumptions C13_decider_sound.
 
 (* main theorem: the model satisfies the whole property on every dialect, for all requests, all stated
-   existing attributes and all (abstract) values -- outside the two refuted classes of inclass_C13
-   (C13_autoinc_ignored_refuted, C13_check_after_rename_refuted): hence `_partial` *)
+   existing attributes and all (abstract) values -- outside the refuted class excluded by inclass_C13 =
+   autoinc_honoured (C13_autoinc_ignored_refuted): hence `_partial` *)
 Theorem C13_model_holds_partial : forall i, inclass_C13 i = true -> C13_holds i (tagged_C13 i).
 Proof. exact model_holds_partial. Qed.
 Print Assumptions C13_model_holds_partial.
 
 (* its clauses separately *)
 Theorem C13_effect : forall i ss st0,
-  inclass_C13 i = true ->                          (* the two refuted classes excluded *)
+  inclass_C13 i = true ->                          (* = autoinc_honoured, see C13_autoinc_ignored_refuted *)
   model_C13 i = (ss, None) ->                      (* ran to completion, no exception *)
   matches (i_ex i) st0 ->                          (* every stated existing_* is the column's value *)
   stated_enough ss (i_req i) (i_ex i) st0 ->       (* see C13_stated_enough_exact / _minimal *)
@@ -65,7 +65,7 @@ Theorem C13_toimpl_frame : forall i st0, run_total (fst (model_C13 i)) st0 = run
 Proof. exact toimpl_frame. Qed.
 Print Assumptions C13_toimpl_frame.
 
-(* FINDING 1: outside MySQL/MariaDB a requested autoincrement is never applied (no statement touches it, nothing
+(* FINDING: outside MySQL/MariaDB a requested autoincrement is never applied (no statement touches it, nothing
    is raised), so the full-strength statement is false there *)
 Theorem C13_autoinc_ignored : forall i st0 st',
   is_mysql (i_d i) = false -> run (fst (model_C13 i)) st0 = Some st' -> c_autoinc st' = c_autoinc st0.
@@ -78,17 +78,6 @@ Theorem C13_autoinc_ignored_refuted : forall d sch, is_mysql d = false ->
   ~ C13_holds (mkIn d sch req_autoinc_only ex_nothing) (tagged_C13 (mkIn d sch req_autoinc_only ex_nothing)).
 Proof. exact autoinc_refuted. Qed.
 Print Assumptions C13_autoinc_ignored_refuted.
-
-(* FINDING 2: with new_column_name and a type_ that carries a type-bound CHECK, toimpl.alter_column emits
-   ADD CONSTRAINT k CHECK (<old column name> IN ...) AFTER the rename: the statement names a column that no
-   longer exists (every dialect except SQLite, which skips the ADD) *)
-Theorem C13_check_after_rename_refuted : forall d sch, d <> Dsqlite ->
-  inclass_C13 (mkIn d sch req_rename_enum ex_nothing) = false /\
-  snd (model_C13 (mkIn d sch req_rename_enum ex_nothing)) = None /\
-  run (fst (model_C13 (mkIn d sch req_rename_enum ex_nothing))) st_plain = None /\
-  ~ C13_holds (mkIn d sch req_rename_enum ex_nothing) (tagged_C13 (mkIn d sch req_rename_enum ex_nothing)).
-Proof. exact check_after_rename_refuted. Qed.
-Print Assumptions C13_check_after_rename_refuted.
 
 (* the hypothesis stated_enough, spelled out per dialect, exactly ... *)
 Theorem C13_stated_enough_exact : forall i st0,
@@ -126,4 +115,9 @@ Example C13_toimpl_nonvacuous :
   model_C13 (mkIn Doracle tN (mkReq (Some (mkTy 13 false (Some 51%N))) None TFalse None TFalse None None)
                   (mkEx 1%N (Some (mkTy 12 false (Some 50%N))) None TFalse None None))
   = ([DropConstraint 50%N; SetType 1%N (mkTy 13 false (Some 51%N)) None; AddConstraint 1%N 51%N], None).
+Proof. reflexivity. Qed.
+(* the CHECK of the new type is added after the rename and names the NEW column name (fix 0b330f6) *)
+Example C13_check_after_rename_fixed :
+  model_C13 (mkIn Dpostgresql tN (mkReq (Some (mkTy 13 false (Some 51%N))) None TFalse (Some 2%N) TFalse None None) ex_nothing)
+  = ([SetType 1%N (mkTy 13 false (Some 51%N)) None; Rename 1%N 2%N; AddConstraint 2%N 51%N], None).
 Proof. reflexivity. Qed.
